@@ -275,6 +275,19 @@ REVERTS = [
      """        if isinstance(arg, (tuple, list, dict)):
 """, """        if isinstance(arg, (tuple, list)):
 """),
+    ('revert-F68-strings-into-a-categorical-column', ['C07', 'C18', 'C19'], 'fastparquet/api.py',
+     """                if col in data.columns and not isinstance(
+                        data[col].dtype, pd.CategoricalDtype):
+""", """                if False:
+"""),
+    ('revert-F69-unparsable-partition-value', ['C07', 'C18', 'C19'], 'fastparquet/api.py',
+     """                        except (ValueError, TypeError):
+                            raise ValueError(
+""", """                        except (ValueError, TypeError):
+                            pass
+                        if False:
+                            raise ValueError(
+"""),
     ('revert-F67-v2-levels-only-with-nulls', ['C15'], 'fastparquet/core.py',
      """    if max_def and (data_header2.num_nulls or max_rep):
 """, """    if max_def and data_header2.num_nulls:
